@@ -2,12 +2,10 @@
    Model: C19/Model.v (one model over an abstract number record; the binary64 instance C19/Float.v is what the
    harness evaluates against pybaselines/polynomial.py on every run).  Proofs: C19/FitsProofs.v, C19/MemProofs.v.
 
-   Not claimed here (kept as growth, see claims/C19.json):
-     C19_poly_exact  (data on a polynomial of degree <= poly_order is reproduced at fitted points when the
-                      weighted normal matrix is non-singular)  -- oracle only;
-     C19_nearest     (the sliding window is a nearest-neighbour window) -- not attempted. *)
-From Coq Require Import ZArith List Bool.
-From PB Require Import C19.Model C19.FitsProofs C19.MemProofs C19.InterpProofs.
+   C19_poly_exact is proved at the level of the local linear system (C19_poly_exact_partial); its lifting to the
+   list-based kernel loop of the model is not proved (oracle). *)
+From Coq Require Import ZArith List Bool QArith Qcanon.
+From PB Require Import C19.Model C19.FitsProofs C19.MemProofs C19.InterpProofs C19.NearestProofs C19.PolyProofs.
 Import ListNotations.
 Open Scope Z_scope.
 
@@ -115,6 +113,79 @@ Theorem C19_no_garbage : forall (R : Num) (xraw x : list (T R)) (N tp : Z) (delt
   tab N (fill_skips R x b0 skips) = tab N (fill_skips R x b0' skips).
 Proof. exact no_garbage. Qed.
 Print Assumptions C19_no_garbage.
+
+(* Nearest-neighbour windows (integer instance, non-decreasing x).  `nn` in boundary form: the first point left of the
+   window is at least as far from x[i] as the last point inside, the first point right of it at least as far as the
+   first point inside.  EVERY window chosen by the sliding loop, the first and the last window, and the full window
+   of the second-to-last branch are nearest-neighbour windows; the only possible exception is the shifted window
+   (N-tp-1, N-1) of the second-to-last branch (see the _refuted witness below). *)
+Theorem C19_nearest : forall (xs : list Z) (N tp delta : Z),
+  1 <= N -> 1 <= tp <= N -> N = zlen xs ->
+  (forall a b, 0 <= a <= b -> b < N -> X Num_Z xs a <= X Num_Z xs b) ->
+  let '(windows, fits, _) := determine_fits Num_Z xs N tp delta in
+  Forall2 (fun i w =>
+     ((0 < fst w -> X Num_Z xs i - X Num_Z xs (fst w - 1) >= X Num_Z xs (snd w - 1) - X Num_Z xs i) /\
+      (snd w < N -> X Num_Z xs (snd w) - X Num_Z xs i >= X Num_Z xs i - X Num_Z xs (fst w)))
+     \/ (i = N - 2 /\ w = (N - tp - 1, N - 1))) fits windows.
+Proof. exact determine_fits_nearest. Qed.
+Print Assumptions C19_nearest.
+
+(* what the boundary form means for a window that contains its point (C19_window_contains): no point outside the
+   window is strictly closer to x[i] than any point inside *)
+Theorem C19_nearest_meaning : forall (xs : list Z) (N tp : Z),
+  1 <= N -> 1 <= tp <= N ->
+  (forall a b, 0 <= a <= b -> b < N -> X Num_Z xs a <= X Num_Z xs b) ->
+  forall i l r,
+  ((0 < l -> X Num_Z xs i - X Num_Z xs (l - 1) >= X Num_Z xs (r - 1) - X Num_Z xs i) /\
+   (r < N -> X Num_Z xs r - X Num_Z xs i >= X Num_Z xs i - X Num_Z xs l)) ->
+  0 <= l -> l <= i < r -> r <= N ->
+  forall j k, 0 <= j < N -> (j < l \/ r <= j) -> l <= k < r ->
+    Z.abs (X Num_Z xs k - X Num_Z xs i) <= Z.abs (X Num_Z xs j - X Num_Z xs i).
+Proof. exact nn_meaning. Qed.
+Print Assumptions C19_nearest_meaning.
+
+(* the second-to-last branch as coded (`x[-1] - x[-2] < x[-2] - x[num_x - total_points]`, i.e. against x[N-tp]
+   instead of x[N-tp-1]) can choose a window that is NOT nearest: x = [0,5,10,11], total_points = 2, delta = 100:
+   point 2 (x = 10) is fitted on {5, 10} although 11 is strictly closer than 5.  Not a C19 violation by the letter
+   (the window has total_points neighbouring points containing the point); recorded as an observation. *)
+Theorem C19_nearest_second_last_refuted :
+  exists (xs : list Z) (tp delta : Z),
+    (forall a b, 0 <= a < b -> b < zlen xs -> X Num_Z xs a < X Num_Z xs b) /\
+    let '(windows, fits, _) := determine_fits Num_Z xs (zlen xs) tp delta in
+    exists k, nth k fits 0 = 2 /\ nth k windows (0, 0) = (1, 3) /\
+      Z.abs (X Num_Z xs 3 - X Num_Z xs 2) < Z.abs (X Num_Z xs 1 - X Num_Z xs 2).
+Proof. exact nearest_second_last_refuted. Qed.
+Print Assumptions C19_nearest_second_last_refuted.
+
+(* Polynomial exactness of one local fit, over the rationals (the proof is ring-only and generic in the ring).
+   With A[a][t] = kernel[t] * (vander[t][a] * w[t]) and b[t] = kernel[t] * (y[t] * w[t]) exactly as `fit_args` builds
+   them, data y[t] = sum_a vander[t][a] * c0[a] (a polynomial of degree <= poly_order), a solver result c with
+   (A A^T) c = A b, and a non-singular normal matrix (A A^T d = 0 -> d = 0):  c = c0, hence vander[i].dot(c) is the
+   polynomial's value for every row.  (total_points = poly_order + 1 never satisfies the non-singularity
+   hypothesis: the tricube kernel vanishes at the farthest point.)
+   PARTIAL: the full statement -- `pass` of C19/Model.v with such a `local_fit` returns y at every fitted index --
+   needs the list-level refinement of fit_args/predict to these sums and is not proved. *)
+Theorem C19_poly_exact_partial : forall (m q : nat) (V : nat -> nat -> Qc) (kk w c0 c : nat -> Qc),
+  let A := fun a t => Qcmult (kk t) (Qcmult (V t a) (w t)) in
+  let y := fun t => rsum Qc 0%Qc Qcplus q (fun a => Qcmult (V t a) (c0 a)) in
+  let b := fun t => Qcmult (kk t) (Qcmult (y t) (w t)) in
+  let normal := fun d a => rsum Qc 0%Qc Qcplus m (fun t => Qcmult (A a t) (rsum Qc 0%Qc Qcplus q (fun a' => Qcmult (A a' t) (d a')))) in
+  (forall a, (a < q)%nat -> normal c a = rsum Qc 0%Qc Qcplus m (fun t => Qcmult (A a t) (b t))) ->
+  (forall d, (forall a, (a < q)%nat -> normal d a = 0%Qc) -> forall a, (a < q)%nat -> d a = 0%Qc) ->
+  (forall a, (a < q)%nat -> c a = c0 a) /\
+  (forall v : nat -> Qc, rsum Qc 0%Qc Qcplus q (fun a => Qcmult (v a) (c a)) = rsum Qc 0%Qc Qcplus q (fun a => Qcmult (v a) (c0 a))).
+Proof. exact poly_exact_Qc. Qed.
+Print Assumptions C19_poly_exact_partial.
+
+Example C19_poly_exact_hyps_nonvacuous :
+  let one := fun _ : nat => 1%Qc in
+  let V := fun _ _ : nat => 1%Qc in
+  let c := fun _ : nat => Q2Qc 3 in
+  (forall a, (a < 1)%nat -> normal Qc 0%Qc Qcplus Qcmult 1 1 V one one c a =
+      rsum Qc 0%Qc Qcplus 1 (fun t => Qcmult (A Qc Qcmult V one one a t) (b Qc 0%Qc Qcplus Qcmult 1 V one one c t))) /\
+  (forall d, (forall a, (a < 1)%nat -> normal Qc 0%Qc Qcplus Qcmult 1 1 V one one d a = 0%Qc) ->
+     forall a, (a < 1)%nat -> d a = 0%Qc).
+Proof. exact poly_exact_hyps_nonvacuous. Qed.
 
 (* the hypotheses are satisfiable and the statements are not about trivial outputs: x = 0..7,
    total_points = 3, delta = 3 skips points 1, 3 and 5 (three interpolation segments) *)
